@@ -611,7 +611,9 @@ def run(ctx):
     ctx.cov["evaluations"] += len(ctx_lines)
     if diffs > 10:
         ctx.failed_obligations.append(f"... and {diffs - 10} more decode differences")
-    end_to_end(ctx, shipped)
+    rejected = [sm for j, (kind, sm) in enumerate(malformed)
+                if model[len(valid) + j].startswith("err") and impl[len(valid) + j].startswith("err") and 0 < len(sm) <= 400]
+    end_to_end(ctx, shipped, rejected)
     ctx.notes["valid_pairs"] = len(valid)
     ctx.notes["malformed_streams"] = len(malformed)
     ctx.notes["error_kind_comparison"] = ("exact: the model mirrors the order of checks in decode_icc, so the "
@@ -629,13 +631,13 @@ def run(ctx):
     ]
 
 
-def end_to_end(ctx, shipped):
+def end_to_end(ctx, shipped, rejected=()):
     """embedded profile == JxlImage::original_icc(), through the whole codestream: Lean ICC command
     encoder (all planner modes) + Lean entropy encoder (prefix / ANS) + image header + one frame"""
     ctx.cargo_build(["img"])
     rng = ctx.rng
     profs = list(shipped)
-    for _ in range(10 if ctx.quick else 150):
+    for _ in range(30 if ctx.quick else 150):
         base = bytearray(rng.choice(shipped))
         for _ in range(rng.randint(1, 12)):
             base[rng.randrange(len(base))] = rng.randrange(256)
@@ -645,8 +647,26 @@ def end_to_end(ctx, shipped):
     frame = ("frames 1 frame 0 1 1 0 0 0 0 0 0 0 0 0 0 1 0 0 0 0 wp 1 tr 0 pals 0 tree L 0 0 0 1 coded 0 "
              "chans 3 2 2 1 2 3 4 2 2 0 0 0 0 2 2 9 8 7 6")
     lines, meta = [], []
-    for p in profs:
-        ans, mode = rng.randrange(2), rng.randrange(8)
+    # coder 0/1 prefix/ANS, 2/3 + LZ77, 4/5 + LZ77 with distances beyond the decoded count. For the
+    # last kind the profile's tail is made to repeat the first bytes of its own encoded stream, so
+    # that a copy "from symbol 0" exists (two passes through the Lean ICC command encoder).
+    choice = [(p, rng.randrange(6), rng.randrange(8)) for p in profs]
+    idx = [i for i, (p, c, m) in enumerate(choice) if c >= 4 and len(p) >= 160]
+    enc1 = run_lines_robust([MODEL_EXE, "c18"], [f"encode auto:{choice[i][2]}: {choice[i][0].hex()}" for i in idx],
+                            per_line_timeout=60)
+    for i, e in zip(idx, enc1):
+        if e and e.startswith("ok "):
+            head = bytes.fromhex(e.split()[1])[:4]
+            p, c, m = choice[i]
+            choice[i] = (p[:-4] + head, c, m)
+    enc2 = run_lines_robust([MODEL_EXE, "c18"], [f"encode auto:{choice[i][2]}: {choice[i][0].hex()}" for i in idx],
+                            per_line_timeout=60)
+    for i, e in zip(idx, enc2):
+        if e and e.startswith("ok "):
+            b = bytes.fromhex(e.split()[1])
+            if b.find(b[:3], 1) > 0:
+                ctx.count("e2e:stream-repeats-its-start(over-long-distance-possible)")
+    for p, ans, mode in choice:
         gray = 1 if p[16:20] == b"GRAY" else 0
         fr = frame if not gray else frame.replace("chans 3 2 2 1 2 3 4 2 2 0 0 0 0 2 2 9 8 7 6", "chans 1 2 2 1 2 3 4")
         lines.append(f"img 2 2 8 0 1 {gray} 1 0 0 icc {ans} {mode} {p.hex()} {fr}")
@@ -656,15 +676,38 @@ def end_to_end(ctx, shipped):
     outs = run_lines_robust([ctx.harness_bin("img")], [f"icc {h}" for _, h in todo], per_line_timeout=30)
     for ((p, ans, mode), h), o in zip(todo, outs):
         ctx.case(("e2e", p, ans, mode), nontrivial=len(p) > 128)
-        ctx.count("e2e:" + ("ans" if ans else "prefix"))
-        rep = {"profile_hex": p.hex(), "codestream_hex": h, "coder": "ans" if ans else "prefix", "plan_mode": mode,
+        ctx.count("e2e:coder-" + ["prefix", "ans", "prefix+lz77", "ans+lz77", "prefix+lz77-overlong", "ans+lz77-overlong"][ans])
+        rep = {"profile_hex": p.hex(), "codestream_hex": h, "coder": ans, "plan_mode": mode,
+               "how": "echo 'icc <codestream hex>' | harness/target/debug/img"}
+        if not o or o.startswith("panic") or o.startswith("crash") or o == "hang":
+            ctx.violation("original-icc-panicked", (o or "")[:200], rep, key="c18:e2e-panic")
+        elif o.startswith("err") and o.endswith("channel-mismatch"):
+            # the only image-level rejection of a decodable profile: grey profile in a colour image or
+            # the reverse (RenderContextBuilder::build); not the ICC codec's business
+            ctx.count("e2e:image-rejected-profile(channel-mismatch)")
+        elif o.startswith("err"):
+            ctx.violation("image-with-valid-icc-stream-rejected", o[:120], rep, key="c18:e2e-valid-rejected")
+        elif o != "ok " + p.hex():
+            ctx.violation("original-icc-differs-from-embedded", o[:120], rep, key="c18:e2e")
+    ctx.notes["e2e_embedded_profiles"] = len(todo)
+    # rejection end to end: a command stream decode_icc rejects (model and code agree on that above),
+    # embedded as is, must make the image fail to open -- not open without a profile
+    rej = list(rejected)
+    rng.shuffle(rej)
+    rej = rej[:40 if ctx.quick else 600]
+    rl = [f"img 2 2 8 0 1 0 1 0 0 iccraw {len(sm)} {' '.join(str(b) for b in sm)} {frame}" for sm in rej]
+    encs = run_lines_robust([MODEL_EXE, "enc"], rl, per_line_timeout=60)
+    todo = [(sm, e.split()[1]) for sm, e in zip(rej, encs) if e and e.startswith("ok")]
+    outs = run_lines_robust([ctx.harness_bin("img")], [f"icc {h}" for _, h in todo], per_line_timeout=30)
+    for (sm, h), o in zip(todo, outs):
+        ctx.case(("e2e-rej", sm), nontrivial=True)
+        rep = {"encoded_icc_stream_hex": sm.hex(), "codestream_hex": h,
                "how": "echo 'icc <codestream hex>' | harness/target/debug/img"}
         if not o or o.startswith("panic") or o.startswith("crash") or o == "hang":
             ctx.violation("original-icc-panicked", (o or "")[:200], rep, key="c18:e2e-panic")
         elif o.startswith("err"):
-            # the image-level validation may reject a profile (e.g. channel count mismatch, malformed
-            # profile): that is not the ICC codec's business; counted, not a violation
-            ctx.count("e2e:image-rejected-profile")
-        elif o != "ok " + p.hex():
-            ctx.violation("original-icc-differs-from-embedded", o[:120], rep, key="c18:e2e")
-    ctx.notes["e2e_embedded_profiles"] = len(todo)
+            ctx.count("e2e:malformed-stream-rejects-image")
+        else:
+            ctx.violation("image-opens-although-its-icc-stream-is-rejected-by-decode_icc", o[:120], rep,
+                          key="c18:e2e-malformed-accepted")
+    ctx.notes["e2e_rejected_streams"] = len(todo)
